@@ -18,7 +18,7 @@ RoundTripOK(e) ==
 \* after one cycle nothing changes any more (the QCSchema provenance trail grows by design)
 CyclesOK(e) ==
   /\ e.ok
-  /\ e.obj2_eq_obj1 \/ (e.fmt \in QCSchemaDocs /\ ToSet(e.drift) \subseteq {"extra"})
+  /\ e.obj2_eq_obj1                         \* (for QCSchema documents the provenance entries are projected away by the harness)
   /\ e.bytes3_eq_bytes2 \/ e.fmt \in QCSchemaDocs
 Step ==
   /\ l <= Len(Traces[tid])
